@@ -58,7 +58,7 @@ theorem qau_eq_query_of_viewOK (fx : Fix) (w : World) (v : Nat) (f : Filter) (hv
         cases hall : allSet (w.val f) (f.off P) (indices h.1 h.2 f.capBits f.numHashes) with
         | false => rfl
         | true =>
-          have := (allSet_iff _ _ _).mp hall _ (idx1_mem_indices h.1 h.2 f.capBits f.numHashes (hok.k1 hp))
+          have := (allSet_iff _ _ _).mp hall _ (idx1_mem_indices h.1 h.2 f.capBits f.numHashes (hok.k1 hp).1)
           rw [hclr] at this; cases this
       simp [query, he, hfalse]
     · have he' : f.isEmpty = false := by simpa using he
